@@ -214,7 +214,7 @@ func ExecPlan(t *testing.T, p *Plan, prop Property, keepLog bool) (run *Run) {
 		prop.Prepare(run)
 		run.Goroutines[0] = runtime.NumGoroutine() - baseG - 1
 		run.Clients = s.StartClients(p.Ops, p.Settle)
-		s.push(s.T0+p.Settle+time.Nanosecond, "~wake", 1<<41, "wake", "t0", func() {})
+		s.push(s.T0+p.RunFor+p.Settle+time.Nanosecond, "~wake", 1<<41, "wake", "t0", func() {})
 		deadline := s.T0 + p.Deadline
 		run.EndReason = s.Run(deadline, func() bool {
 			if !isClosedChan(bootDone) {
@@ -226,6 +226,9 @@ func ExecPlan(t *testing.T, p *Plan, prop Property, keepLog bool) (run *Run) {
 			last := run.Clients.LastDoneAt()
 			if last < s.T0 {
 				last = s.T0
+			}
+			if last < s.T0+p.RunFor {
+				last = s.T0 + p.RunFor
 			}
 			return s.Now() >= last+p.Settle
 		})
